@@ -26,6 +26,15 @@ from spec import Fn, Unit, REPO  # noqa: E402
 
 PRELUDE_ASSUMPTIONS = {
     "core.rs": "A-STRUCTS/A-HASH: melstructs 0.3.3 + tmelcrypt types mirrored by hand; hash functions uninterpreted (injective where stated); CoinValue/BlockHeight operators panic-on-overflow as preconditions",
+    "codec_io.rs": "A-IO / A-VECEXT: std::io::Read for &[u8] (read_exact), Write for Vec<u8> (write_all), slice::reverse, u8/u16 <-> big/little-endian bytes, ethnum U256::{from_le_bytes, leading_zeros (only: /8 = leading zero bytes)}; a Vec<u8> literal is identified with its contents",
+    "std_extra.rs": "std integer methods a refactor may reach for (u128/u64::abs_diff) with their documented meaning",
+    "melvm_exec.rs": "A-U256 / A-CATVEC: ethnum::U256 arithmetic, shifts, conversions and catvec::CatVec as the interpreter uses them (plus the neighbouring checked_/overflowing_/wrapping_/saturating_ methods)",
+    "melvm_types.rs": "A-U256: ethnum::U256 as an opaque integer below 2^256",
+    "raw.rs": "A-SMT / A-HASH / A-SER: novasmt tree as a total map with an injective root, blake3 hashes uninterpreted and collision-free, stdcode injective and decodable",
+    "num.rs": "A-NUM: num BigInt / BigRational / Ratio as exact integers and rationals (division by zero is a precondition)",
+    "iter.rs": "A-ITER / A-RAYON: std and rayon iterator adapters as eager sequences (sequential semantics; hash-map order arbitrary)",
+    "melpow.rs": "A-POW: melpow proof verification as an uninterpreted predicate (its totality is NOT assumed: F-C09-melpow)",
+    "melswap.rs": "A-STRUCTS: melstructs PoolKey / PoolState / Denom byte encodings by name (the arithmetic members are proved from the registry source in unit depswap)",
     "state_abs.rs": "abstract faces of repo container types (CoinMapping, SmtMapping, TransactionSet, StakeSet): contracts proved in their own units, assumed elsewhere",
 }
 SCAN = [("external_body", r"external_body"), ("assume_specification", r"assume_specification"),
